@@ -51,11 +51,11 @@ Section Pratt.
     | O => Oof
     | S n' =>
       '(lhs, r0) <- (match ts with
-                     | TNot :: rest =>
-                       if min_bp <=? c_not_max c
+                     | t :: rest =>
+                       if tok_is_not t && (min_bp <=? c_not_max c)
                        then '(e, r) <- parse_expr n' (c_not_rbp c) rest ;; Ok (ENot e, r)
                        else P ts
-                     | _ => P ts
+                     | [] => P ts
                      end) ;;
       infix_loop n' (c_ni_l c) (c_ni_r c) min_bp lhs r0
     end
@@ -65,24 +65,28 @@ Section Pratt.
     | S n' =>
       match ts with
       | [] => Ok (lhs, ts)
-      | TNot :: rest =>
-        if nl <? min_bp then Ok (lhs, ts)
-        else match rest with
-             | TIn :: rest' =>
-               '(rhs, r) <- parse_expr n' nr rest' ;;
-               if reject_chained r then Err 2
-               else infix_loop n' nl nr min_bp (EOp lhs NotIn rhs) r
-             | _ => Err 1                                   (* expected 'in' after 'not' *)
-             end
       | t :: rest =>
-        match lookup (c_tbl c) t with
-        | None => Ok (lhs, ts)
-        | Some (op, lb, rb) =>
-          if lb <? min_bp then Ok (lhs, ts)
-          else '(rhs, r) <- parse_expr n' rb rest ;;
-               if is_cmp c op && reject_chained r then Err 2
-               else infix_loop n' nl nr min_bp (EOp lhs op rhs) r
-        end
+        if tok_is_not t then
+          (* the two-token operator `not in` *)
+          if nl <? min_bp then Ok (lhs, ts)
+          else match rest with
+               | t2 :: rest' =>
+                 if tok_is_in t2 then
+                   '(rhs, r) <- parse_expr n' nr rest' ;;
+                   if reject_chained r then Err 2
+                   else infix_loop n' nl nr min_bp (EOp lhs NotIn rhs) r
+                 else Err 1                                 (* expected 'in' after 'not' *)
+               | [] => Err 1
+               end
+        else
+          match lookup (c_tbl c) t with
+          | None => Ok (lhs, ts)
+          | Some (op, lb, rb) =>
+            if lb <? min_bp then Ok (lhs, ts)
+            else '(rhs, r) <- parse_expr n' rb rest ;;
+                 if is_cmp c op && reject_chained r then Err 2
+                 else infix_loop n' nl nr min_bp (EOp lhs op rhs) r
+          end
       end
     end.
 
